@@ -1,2 +1,517 @@
 //! Model containers used by the slices (DESIGN 3.3).  Set / map / cell semantics only.
 #![allow(dead_code)]
+
+use crate::{InternalKey, Value};
+
+/// Stand-in for `Vec<(InternalKey, Value)>` (CompactionIterator::accumulated_versions) of at most N
+/// entries.  `sort_by_key` / `dedup_by_key` do not reorder: they ASSERT that the content already is in
+/// the order / already free of the duplicates the call would establish (the harness supplies the
+/// versions of one key in strictly decreasing sequence order, which is what the merge iterator
+/// yields), so a change of the sort key or direction in the sliced source is reported, not masked.
+pub(crate) struct VersArr<const N: usize> {
+	pub items: [(InternalKey, Value); N],
+	pub len: usize,
+}
+
+impl<const N: usize> VersArr<N> {
+	pub fn is_empty(&self) -> bool {
+		self.len == 0
+	}
+	pub fn len(&self) -> usize {
+		self.len
+	}
+	pub fn iter(&self) -> core::slice::Iter<'_, (InternalKey, Value)> {
+		self.items[..self.len].iter()
+	}
+	pub fn clear(&mut self) {
+		self.len = 0;
+	}
+	pub fn sort_by_key<K: Ord, F: FnMut(&(InternalKey, Value)) -> K>(&mut self, mut f: F) {
+		let mut i = 1;
+		while i < self.len {
+			assert!(f(&self.items[i - 1]) <= f(&self.items[i]), "verif model: sort_by_key would reorder the versions");
+			i += 1;
+		}
+	}
+	pub fn dedup_by_key<K: PartialEq, F: FnMut(&mut (InternalKey, Value)) -> K>(&mut self, mut f: F) {
+		let mut i = 1;
+		while i < self.len {
+			let a = f(&mut self.items[i - 1]);
+			let b = f(&mut self.items[i]);
+			assert!(a != b, "verif model: dedup_by_key would remove a version");
+			i += 1;
+		}
+	}
+}
+
+impl<const N: usize> core::ops::Index<usize> for VersArr<N> {
+	type Output = (InternalKey, Value);
+	fn index(&self, i: usize) -> &(InternalKey, Value) {
+		assert!(i < self.len, "verif model: index past the accumulated versions");
+		&self.items[i]
+	}
+}
+
+/// Stand-in for `Vec<(InternalKey, Value)>` (CompactionIterator::output_versions): records the
+/// sequence numbers pushed, in push order.
+pub(crate) struct OutRec<const N: usize> {
+	pub seqs: [u64; N],
+	pub n: usize,
+}
+
+impl<const N: usize> OutRec<N> {
+	pub fn new() -> Self {
+		Self { seqs: [0; N], n: 0 }
+	}
+	pub fn push(&mut self, item: (InternalKey, Value)) {
+		assert!(self.n < N, "verif model: more versions output than input");
+		self.seqs[self.n] = item.0.seq_num();
+		self.n += 1;
+		core::mem::forget(item);
+	}
+	pub fn is_empty(&self) -> bool {
+		self.n == 0
+	}
+	pub fn kept(&self, seq: u64) -> bool {
+		let mut i = 0;
+		let mut k = false;
+		while i < self.n {
+			if self.seqs[i] == seq {
+				k = true;
+			}
+			i += 1;
+		}
+		k
+	}
+}
+
+// ---------------------------------------------------------------------------------------------
+/// Stand-in for `crossbeam_skiplist::SkipSet<T>`: an ordered SET of at most 4 elements with the
+/// subset of the API the sliced trackers use.  Set semantics: inserting a present element keeps one
+/// copy; `remove` deletes it; `iter`/`range` ascend; `front` is the minimum.  Differentially tested
+/// against the real SkipSet natively (`bin/check models`).
+pub(crate) const SKIPSET_SLOTS: usize = 4;
+
+pub(crate) struct SkipSet<T: Ord + Copy> {
+	slots: [core::cell::Cell<Option<T>>; SKIPSET_SLOTS],
+}
+
+pub(crate) struct Entry<'a, T: Ord + Copy> {
+	set: &'a SkipSet<T>,
+	val: T,
+}
+
+impl<'a, T: Ord + Copy> Entry<'a, T> {
+	pub fn value(&self) -> &T {
+		&self.val
+	}
+	pub fn remove(&self) -> bool {
+		self.set.remove(&self.val).is_some()
+	}
+}
+
+impl<'a, T: Ord + Copy> core::ops::Deref for Entry<'a, T> {
+	type Target = T;
+	fn deref(&self) -> &T {
+		&self.val
+	}
+}
+
+pub(crate) struct SetIter<'a, T: Ord + Copy> {
+	set: &'a SkipSet<T>,
+	sorted: [Option<T>; SKIPSET_SLOTS],
+	pos: usize,
+}
+
+impl<'a, T: Ord + Copy> Iterator for SetIter<'a, T> {
+	type Item = Entry<'a, T>;
+	fn next(&mut self) -> Option<Entry<'a, T>> {
+		while self.pos < SKIPSET_SLOTS {
+			let p = self.pos;
+			self.pos += 1;
+			if let Some(v) = self.sorted[p] {
+				return Some(Entry { set: self.set, val: v });
+			}
+		}
+		None
+	}
+}
+
+impl<T: Ord + Copy> SkipSet<T> {
+	pub fn new() -> Self {
+		Self {
+			slots: [
+				core::cell::Cell::new(None),
+				core::cell::Cell::new(None),
+				core::cell::Cell::new(None),
+				core::cell::Cell::new(None),
+			],
+		}
+	}
+	pub fn len(&self) -> usize {
+		let mut n = 0;
+		let mut i = 0;
+		while i < SKIPSET_SLOTS {
+			if self.slots[i].get().is_some() {
+				n += 1;
+			}
+			i += 1;
+		}
+		n
+	}
+	pub fn is_empty(&self) -> bool {
+		self.len() == 0
+	}
+	pub fn contains(&self, v: &T) -> bool {
+		let mut i = 0;
+		while i < SKIPSET_SLOTS {
+			if self.slots[i].get() == Some(*v) {
+				return true;
+			}
+			i += 1;
+		}
+		false
+	}
+	pub fn insert(&self, v: T) -> Entry<'_, T> {
+		if !self.contains(&v) {
+			let mut i = 0;
+			let mut done = false;
+			while i < SKIPSET_SLOTS {
+				if !done && self.slots[i].get().is_none() {
+					self.slots[i].set(Some(v));
+					done = true;
+				}
+				i += 1;
+			}
+			assert!(done, "verif model: SkipSet capacity (4) exceeded");
+		}
+		Entry { set: self, val: v }
+	}
+	pub fn remove(&self, v: &T) -> Option<Entry<'_, T>> {
+		let mut i = 0;
+		let mut found = false;
+		while i < SKIPSET_SLOTS {
+			if self.slots[i].get() == Some(*v) {
+				self.slots[i].set(None);
+				found = true;
+			}
+			i += 1;
+		}
+		if found {
+			Some(Entry { set: self, val: *v })
+		} else {
+			None
+		}
+	}
+	fn sorted(&self) -> [Option<T>; SKIPSET_SLOTS] {
+		// selection of the k-th smallest present element, k = 0..4
+		let mut out: [Option<T>; SKIPSET_SLOTS] = [None; SKIPSET_SLOTS];
+		let mut k = 0;
+		let mut prev: Option<T> = None;
+		while k < SKIPSET_SLOTS {
+			let mut best: Option<T> = None;
+			let mut i = 0;
+			while i < SKIPSET_SLOTS {
+				if let Some(v) = self.slots[i].get() {
+					let above_prev = match prev {
+						None => true,
+						Some(p) => v > p,
+					};
+					let better = match best {
+						None => true,
+						Some(b) => v < b,
+					};
+					if above_prev && better {
+						best = Some(v);
+					}
+				}
+				i += 1;
+			}
+			out[k] = best;
+			if best.is_none() {
+				break;
+			}
+			prev = best;
+			k += 1;
+		}
+		out
+	}
+	pub fn iter(&self) -> SetIter<'_, T> {
+		SetIter { set: self, sorted: self.sorted(), pos: 0 }
+	}
+	pub fn range<R: core::ops::RangeBounds<T>>(&self, r: R) -> SetIter<'_, T> {
+		let mut s = self.sorted();
+		let mut i = 0;
+		while i < SKIPSET_SLOTS {
+			if let Some(v) = s[i] {
+				if !r.contains(&v) {
+					s[i] = None;
+				}
+			}
+			i += 1;
+		}
+		SetIter { set: self, sorted: s, pos: 0 }
+	}
+	pub fn front(&self) -> Option<Entry<'_, T>> {
+		match self.sorted()[0] {
+			Some(v) => Some(Entry { set: self, val: v }),
+			None => None,
+		}
+	}
+}
+
+// the real SkipSet is Send + Sync; the sliced trackers are stored in Arc and shared
+unsafe impl<T: Ord + Copy> Sync for SkipSet<T> {}
+unsafe impl<T: Ord + Copy> Send for SkipSet<T> {}
+
+// ---------------------------------------------------------------------------------------------
+/// Stand-in for `std::collections::HashMap<K, V>` with at most 3 entries (map semantics only).
+pub(crate) const SMALLMAP_SLOTS: usize = 3;
+
+pub(crate) struct SmallMap<K: Eq + Copy, V: Copy> {
+	pub slots: [Option<(K, V)>; SMALLMAP_SLOTS],
+}
+
+impl<K: Eq + Copy, V: Copy> SmallMap<K, V> {
+	pub fn new() -> Self {
+		Self { slots: [None; SMALLMAP_SLOTS] }
+	}
+	pub fn len(&self) -> usize {
+		let mut n = 0;
+		let mut i = 0;
+		while i < SMALLMAP_SLOTS {
+			if self.slots[i].is_some() {
+				n += 1;
+			}
+			i += 1;
+		}
+		n
+	}
+	pub fn is_empty(&self) -> bool {
+		self.len() == 0
+	}
+	pub fn get(&self, k: &K) -> Option<&V> {
+		let mut i = 0;
+		while i < SMALLMAP_SLOTS {
+			if let Some((kk, v)) = &self.slots[i] {
+				if *kk == *k {
+					return Some(v);
+				}
+			}
+			i += 1;
+		}
+		None
+	}
+	pub fn contains_key(&self, k: &K) -> bool {
+		self.get(k).is_some()
+	}
+	pub fn insert(&mut self, k: K, v: V) -> Option<V> {
+		let mut i = 0;
+		while i < SMALLMAP_SLOTS {
+			if let Some((kk, old)) = self.slots[i] {
+				if kk == k {
+					self.slots[i] = Some((k, v));
+					return Some(old);
+				}
+			}
+			i += 1;
+		}
+		let mut j = 0;
+		while j < SMALLMAP_SLOTS {
+			if self.slots[j].is_none() {
+				self.slots[j] = Some((k, v));
+				return None;
+			}
+			j += 1;
+		}
+		panic!("verif model: SmallMap capacity (3) exceeded");
+	}
+	pub fn remove(&mut self, k: &K) -> Option<V> {
+		let mut i = 0;
+		while i < SMALLMAP_SLOTS {
+			if let Some((kk, old)) = self.slots[i] {
+				if kk == *k {
+					self.slots[i] = None;
+					return Some(old);
+				}
+			}
+			i += 1;
+		}
+		None
+	}
+	pub fn retain<F: FnMut(&K, &mut V) -> bool>(&mut self, mut f: F) {
+		let mut i = 0;
+		while i < SMALLMAP_SLOTS {
+			if let Some((k, mut v)) = self.slots[i] {
+				if f(&k, &mut v) {
+					self.slots[i] = Some((k, v));
+				} else {
+					self.slots[i] = None;
+				}
+			}
+			i += 1;
+		}
+	}
+	pub fn clear(&mut self) {
+		self.slots = [None; SMALLMAP_SLOTS];
+	}
+}
+
+/// Stand-in for `parking_lot::Mutex<T>` in sequential harnesses: a cell; locking a locked mutex
+/// (self-deadlock in the real code) fails the harness.
+pub(crate) struct Mutex<T> {
+	locked: core::cell::Cell<bool>,
+	v: core::cell::UnsafeCell<T>,
+}
+unsafe impl<T> Sync for Mutex<T> {}
+unsafe impl<T> Send for Mutex<T> {}
+
+pub(crate) struct MutexGuard<'a, T> {
+	m: &'a Mutex<T>,
+}
+
+impl<T> Mutex<T> {
+	pub const fn new(v: T) -> Self {
+		Self { locked: core::cell::Cell::new(false), v: core::cell::UnsafeCell::new(v) }
+	}
+	pub fn lock(&self) -> MutexGuard<'_, T> {
+		assert!(!self.locked.get(), "verif model: mutex locked twice (self-deadlock)");
+		self.locked.set(true);
+		MutexGuard { m: self }
+	}
+	pub fn is_locked(&self) -> bool {
+		self.locked.get()
+	}
+}
+
+impl<'a, T> core::ops::Deref for MutexGuard<'a, T> {
+	type Target = T;
+	fn deref(&self) -> &T {
+		unsafe { &*self.m.v.get() }
+	}
+}
+impl<'a, T> core::ops::DerefMut for MutexGuard<'a, T> {
+	fn deref_mut(&mut self) -> &mut T {
+		unsafe { &mut *self.m.v.get() }
+	}
+}
+impl<'a, T> Drop for MutexGuard<'a, T> {
+	fn drop(&mut self) {
+		self.m.locked.set(false);
+	}
+}
+
+/// Stand-in for `xxhash_rust::xxh3::xxh3_64`: INJECTIVE on keys of at most 7 bytes (bytes packed
+/// little-endian, length in the top byte).  The oracle harnesses therefore claim "no fingerprint
+/// collision among the keys used"; real xxh3 collisions are outside the claim.
+pub(crate) fn fp_injective(key: &[u8]) -> u64 {
+	assert!(key.len() <= 7, "verif model: fingerprint model covers keys up to 7 bytes");
+	let mut r: u64 = (key.len() as u64) << 56;
+	let mut i = 0;
+	while i < key.len() {
+		r |= (key[i] as u64) << (8 * i);
+		i += 1;
+	}
+	r
+}
+
+/// Stub for std::fmt::format: error-message text is never part of a property; building it
+/// symbolically costs minutes (DESIGN 3.4).
+pub(crate) fn no_format(_args: core::fmt::Arguments<'_>) -> String {
+	String::new()
+}
+
+// ---------------------------------------------------------------------------------------------
+/// Stand-ins for `tokio::sync::{oneshot, Semaphore}` in the sequential commit-pipeline harnesses.
+/// The oneshot channel only RECORDS the completion (how many sends, whether Ok, global order);
+/// the payload is forgotten (an `Error` payload would drag io::Error drop glue into CBMC).
+pub(crate) mod oneshot {
+	use std::sync::Arc;
+
+	pub(crate) static mut COMPLETION_CLOCK: u32 = 0;
+
+	pub(crate) struct Slot {
+		pub sends: core::cell::Cell<u32>,
+		pub ok: core::cell::Cell<bool>,
+		pub order: core::cell::Cell<u32>,
+	}
+	unsafe impl Sync for Slot {}
+	unsafe impl Send for Slot {}
+
+	pub(crate) struct Sender<T> {
+		pub slot: Arc<Slot>,
+		_p: core::marker::PhantomData<T>,
+	}
+	pub(crate) struct Receiver<T> {
+		pub slot: Arc<Slot>,
+		_p: core::marker::PhantomData<T>,
+	}
+	unsafe impl<T> Send for Sender<T> {}
+	unsafe impl<T> Sync for Sender<T> {}
+	unsafe impl<T> Send for Receiver<T> {}
+
+	pub(crate) mod error {
+		#[derive(Debug)]
+		pub(crate) struct RecvError(pub ());
+	}
+
+	pub(crate) fn channel<T>() -> (Sender<T>, Receiver<T>) {
+		let slot = Arc::new(Slot {
+			sends: core::cell::Cell::new(0),
+			ok: core::cell::Cell::new(false),
+			order: core::cell::Cell::new(0),
+		});
+		(
+			Sender { slot: Arc::clone(&slot), _p: core::marker::PhantomData },
+			Receiver { slot, _p: core::marker::PhantomData },
+		)
+	}
+
+	impl<E> Sender<Result<(), E>> {
+		pub(crate) fn send(self, t: Result<(), E>) -> Result<(), Result<(), E>> {
+			self.slot.sends.set(self.slot.sends.get() + 1);
+			self.slot.ok.set(t.is_ok());
+			unsafe {
+				COMPLETION_CLOCK += 1;
+				self.slot.order.set(COMPLETION_CLOCK);
+			}
+			core::mem::forget(t);
+			core::mem::forget(self);
+			Ok(())
+		}
+	}
+
+	impl<T> core::future::Future for Receiver<T> {
+		type Output = Result<T, error::RecvError>;
+		fn poll(self: core::pin::Pin<&mut Self>, _cx: &mut core::task::Context<'_>) -> core::task::Poll<Self::Output> {
+			// never polled by the harnesses (commit() itself is outside what CBMC reaches)
+			core::task::Poll::Pending
+		}
+	}
+}
+
+pub(crate) struct Semaphore {
+	pub permits: core::cell::Cell<usize>,
+}
+unsafe impl Sync for Semaphore {}
+unsafe impl Send for Semaphore {}
+pub(crate) struct SemaphorePermit<'a> {
+	s: &'a Semaphore,
+}
+#[derive(Debug)]
+pub(crate) struct AcquireError(());
+impl Semaphore {
+	pub(crate) fn new(n: usize) -> Self {
+		Self { permits: core::cell::Cell::new(n) }
+	}
+	pub(crate) async fn acquire(&self) -> Result<SemaphorePermit<'_>, AcquireError> {
+		assert!(self.permits.get() > 0, "verif model: semaphore would block (sequential harness)");
+		self.permits.set(self.permits.get() - 1);
+		Ok(SemaphorePermit { s: self })
+	}
+}
+impl<'a> Drop for SemaphorePermit<'a> {
+	fn drop(&mut self) {
+		self.s.permits.set(self.s.permits.get() + 1);
+	}
+}
